@@ -22,6 +22,8 @@ pub enum Op {
     Merge(Vec<u16>),
     /// an extra reinit in the middle of the prefix
     Reinit,
+    /// a long run of generated items (count, seed): 2^16 +- 1 and 2^17 items (per-instance counters)
+    Bulk(u32, u64),
 }
 
 #[derive(Clone, Debug, Serialize, Deserialize)]
@@ -46,6 +48,13 @@ fn op_strategy(pool: usize) -> impl Strategy<Value = Op> {
     ]
 }
 
+fn prefix_op_strategy(pool: usize) -> impl Strategy<Value = Op> {
+    prop_oneof![
+        60 => op_strategy(pool),
+        1 => (prop::sample::select(vec![65_535u32, 65_536, 65_537, 131_072, 131_071]), any::<u64>()).prop_map(|(n, s)| Op::Bulk(n, s)),
+    ]
+}
+
 fn strategy(max_m: usize, max_pool: usize) -> impl Strategy<Value = Case> {
     (kind_strategy(), crate::gen::m_strategy(1, max_m), 0u8..3).prop_flat_map(move |(kind, m, shape)| {
         let want = match shape {
@@ -55,7 +64,7 @@ fn strategy(max_m: usize, max_pool: usize) -> impl Strategy<Value = Case> {
         };
         (ss_params(m), item_set((want.clamp(2, max_pool) / 2).max(1), want.clamp(2, max_pool))).prop_flat_map(move |(ss, pool)| {
             let pl = pool.len();
-            (prop::collection::vec(op_strategy(pl), 0..12), prop::collection::vec(op_strategy(pl), 1..8)).prop_map(move |(prefix, suffix)| Case { kind, m, ss, pool: pool.clone(), prefix, suffix })
+            (prop::collection::vec(prefix_op_strategy(pl), 0..12), prop::collection::vec(op_strategy(pl), 1..8)).prop_map(move |(prefix, suffix)| Case { kind, m, ss, pool: pool.clone(), prefix, suffix })
         })
     })
 }
@@ -100,6 +109,15 @@ impl<'a> Interp<'a> {
             Op::Reinit => {
                 s.reinit();
                 self.streamed = 0;
+            }
+            Op::Bulk(n, seed) => {
+                // SetSketch with thousands of registers would make this slow: only for sketchers of moderate size
+                if c.m <= 256 {
+                    for i in 0..*n as u64 {
+                        s.sketch(splitmix64(seed.wrapping_add(i)));
+                    }
+                    self.streamed += *n as usize;
+                }
             }
         }
         Ok(())
